@@ -26,6 +26,7 @@ def dispatch (line : String) : String :=
   | some (.atom "c07" :: args) => Driver.C07.handle args
   | some (.atom "c07link" :: args) => Driver.C07.handleLink args
   | some (.atom "c07render" :: args) => Driver.C07.handleRender args
+  | some (.atom "tsstr" :: args) => Driver.C07.handleTsStr args
   | some (.atom "c14" :: args) => Driver.C14.handle args
   | some (.atom "c14legal" :: args) => Driver.C14.handleLegal args
   | some (.atom "c15" :: args) => Driver.C15.handle args
